@@ -88,6 +88,23 @@ Proof. induction chain as [|x r IH]; simpl; [reflexivity | exact IH]. Qed.
 (* how far the constructor's skip overshoots the library's own frames *)
 Definition ctor_off (k : ctor) : Z := ctor_skip k - Z.of_nat (List.length (chain_of k)).
 
+Lemma zfirstn_eq {A} n (l : list A) : zfirstn n l = firstn (Z.to_nat n) l.
+Proof.
+  revert n. induction l as [|x r IH]; intros n; cbn [zfirstn].
+  - now rewrite firstn_nil.
+  - destruct (Z.ltb_spec 0 n) as [H|H].
+    + rewrite IH. replace (Z.to_nat n) with (S (Z.to_nat (n - 1))) by lia. reflexivity.
+    + replace (Z.to_nat n) with 0%nat by lia. reflexivity.
+Qed.
+Lemma zskipn_eq {A} n (l : list A) : zskipn n l = skipn (Z.to_nat n) l.
+Proof.
+  revert n. induction l as [|x r IH]; intros n; cbn [zskipn].
+  - now rewrite skipn_nil.
+  - destruct (Z.ltb_spec 0 n) as [H|H].
+    + rewrite IH. replace (Z.to_nat n) with (S (Z.to_nat (n - 1))) by lia. reflexivity.
+    + replace (Z.to_nat n) with 0%nat by lia. reflexivity.
+Qed.
+
 Lemma chain_ok_off k : chain_ok k = true -> ctor_off k = 0.
 Proof.
   unfold chain_ok, ctor_off. intros H. apply andb_true_iff in H as [_ H].
@@ -100,7 +117,7 @@ Lemma ctor_stack_off {A} k d (chain_pcs user : list A) :
   = if d_notrace d then None
     else Some (firstn (Z.to_nat (eff_depth d)) (skipn (Z.to_nat (d_skip d + ctor_off k)) user)).
 Proof.
-  intros L O S. unfold ctor_stack, new_error_stack, go_callers, gstack.
+  intros L O S. unfold ctor_stack, new_error_stack, go_callers, gstack. rewrite zfirstn_eq, zskipn_eq.
   destruct (d_notrace d); [reflexivity|]. do 2 f_equal.
   replace (Z.to_nat (d_skip d + ctor_skip k))
     with (List.length chain_pcs + Z.to_nat (d_skip d + ctor_off k))%nat.
@@ -124,7 +141,7 @@ Lemma new_error_stack_capture {A} k d (gs : list A) :
   new_error_stack d (ctor_skip k) gs
   = if d_notrace d then None else Some (capture d (ctor_extra k) gs).
 Proof.
-  unfold new_error_stack, capture, go_callers, ctor_extra. destruct (d_notrace d); [reflexivity|].
+  unfold new_error_stack, capture, go_callers, ctor_extra. rewrite !zfirstn_eq, !zskipn_eq. destruct (d_notrace d); [reflexivity|].
   do 3 f_equal. lia.
 Qed.
 
@@ -279,7 +296,7 @@ Lemma model_stack_spec c :
 Proof.
   intros C D. unfold model_stack, model_defn, chain_frames.
   rewrite stack_by_options; [| exact C | now apply in_domain_sum].
-  unfold spec_frames, opts_of. destruct (has_notrace _); split; reflexivity.
+  unfold spec_frames, opts_of. rewrite zfirstn_eq, zskipn_eq. destruct (has_notrace _); split; reflexivity.
 Qed.
 
 Lemma combine_fst {B C} (l : list B) (l2 : list C) :
@@ -302,7 +319,7 @@ Qed.
 Lemma spec_frames_in_user c f : In f (spec_frames c) -> In f (user c).
 Proof.
   unfold spec_frames. destruct (has_notrace _); simpl; [tauto|].
-  intros H. eapply in_skipn, in_firstn, H.
+  rewrite zfirstn_eq, zskipn_eq. intros H. eapply in_skipn, in_firstn, H.
 Qed.
 
 Lemma corr_implies_ok c :
@@ -331,7 +348,7 @@ Proof.
     destruct (Z.eqb (sum_skips (opts_of c)) 0) eqn:Z0; [|reflexivity]. simpl.
     apply oframe_eqb_eq. apply Z.eqb_eq in Z0.
     match goal with H : option_map (fr c) (o_head c) = _ |- _ => rewrite H end.
-    rewrite Vh. unfold spec_frames. rewrite NT, Z0. simpl skipn.
+    rewrite Vh. unfold spec_frames. rewrite NT, Z0, zfirstn_eq, zskipn_eq. simpl skipn.
     apply hd_firstn. pose proof (spec_depth_pos (opts_of c)). lia.
   - (* arithmetic *)
     unfold arith_ok. rewrite K. apply andb_true_iff. split; [now apply frames_eqb_eq|].
@@ -361,4 +378,53 @@ Proof.
     + rewrite MS. destruct (has_notrace (opts_of c)); simpl; [tauto|].
       intros pc Hpc. apply UN, spec_frames_in_user.
       destruct pc as [f o]. now apply in_combine_l in Hpc.
+Qed.
+
+(* ---------- newStack's growing buffer (fix for F14) is one capture with a buffer of [depth] entries ---------- *)
+(* pcs := make(min(depth, callersDepth)); n := Callers(skip, pcs);
+   for n == len(pcs) && len(pcs) < depth { pcs = make(min(depth, 2*len(pcs))); n = Callers(skip, pcs) }
+   [rest] is the goroutine stack below the skipped frames; Callers with a buffer of b entries returns zfirstn b rest. *)
+Fixpoint grow {A} (fuel : nat) (b depth : Z) (rest : list A) : list A :=
+  let r := zfirstn b rest in
+  match fuel with
+  | O => r
+  | S f => if Z.eqb (Z.of_nat (List.length r)) b && Z.ltb b depth
+           then grow f (Z.min depth (2 * b)) depth rest else r
+  end.
+
+Lemma zfirstn_all {A} n (l : list A) : Z.of_nat (List.length l) <= n -> zfirstn n l = l.
+Proof. intros H. rewrite zfirstn_eq. apply firstn_all2. lia. Qed.
+
+Lemma zfirstn_length {A} n (l : list A) : 0 <= n ->
+  Z.of_nat (List.length (zfirstn n l)) = Z.min n (Z.of_nat (List.length l)).
+Proof. intros H. rewrite zfirstn_eq, firstn_length. lia. Qed.
+
+Theorem grow_is_single_capture {A} (rest : list A) : forall fuel b depth,
+  0 < b -> b <= depth -> (List.length rest < fuel + Z.to_nat b)%nat ->
+  grow fuel b depth rest = zfirstn depth rest.
+Proof.
+  induction fuel as [|f IH]; intros b depth Hb Hd Hf; cbn [grow].
+  - rewrite !zfirstn_all by lia. reflexivity.
+  - rewrite zfirstn_length by lia.
+    destruct (Z.eqb_spec (Z.min b (Z.of_nat (List.length rest))) b) as [E|E]; cbn [andb].
+    + destruct (Z.ltb_spec b depth) as [L|L].
+      * apply IH; lia.
+      * replace depth with b by lia. reflexivity.
+    + (* the buffer was not filled: the whole rest fits *)
+      rewrite !zfirstn_all by lia. reflexivity.
+Qed.
+
+(* ---------- addSkip (fix for F15): saturation does not change what is captured ---------- *)
+Definition max_int : Z := 9223372036854775807.
+Definition add_skip (a b : Z) : Z := Z.min max_int (a + b).   (* for 0 <= a, b <= max_int *)
+
+Lemma zskipn_all {A} n (l : list A) : Z.of_nat (List.length l) <= n -> zskipn n l = [].
+Proof. intros H. rewrite zskipn_eq. apply skipn_all2. lia. Qed.
+
+Theorem saturating_skip_is_exact_sum {A} (gs : list A) a b :
+  Z.of_nat (List.length gs) <= max_int ->
+  zskipn (add_skip a b) gs = zskipn (a + b) gs.
+Proof.
+  intros H. unfold add_skip. destruct (Z.min_spec max_int (a + b)) as [[L ->]|[L ->]]; [|reflexivity].
+  rewrite !zskipn_all by lia. reflexivity.
 Qed.
